@@ -239,7 +239,7 @@ def run(tier):
     with ThreadPoolExecutor(max_workers=5) as ex:
         f1 = ex.submit(tlc_model, chk, "TimeArithCode.tla", "TimeArithCode.cfg", "TimeArithCode", 3)
         f2 = ex.submit(tlc_model, chk, "BigNat_MC.tla", None, "BigNat_MC", 3,
-                       "CONSTANTS\n  XMAX = %d\nINIT Init\nNEXT Next\nINVARIANT Check\nCHECK_DEADLOCK FALSE\n" % (1200 if tier == "quick" else 100000))
+                       "CONSTANTS\n  XMAX = %d\nINIT Init\nNEXT Next\nINVARIANT Check\nCHECK_DEADLOCK FALSE\n" % (1200 if tier == "quick" else 12000))
         f3 = ex.submit(tlc_model, chk, "Clock.tla", "Clock_MC.cfg", "Clock_MC", 2)
         f4 = ex.submit(tlc_model, chk, "TimeArithTie.tla", "TimeArithTie.cfg", "TimeArithTie", 2)
         f5 = ex.submit(run_apalache, chk, tier)
